@@ -78,5 +78,6 @@ def main(tier, seed):
 
 
 def replay(rep_json):
-    print("replay: cases are deterministic; re-run ./check C19")
-    return 2
+    from framework.props import _modelprop
+
+    return _modelprop.replay_job("C19", rep_json, "framework.props.capacity", "replay_capacity")
